@@ -298,3 +298,205 @@ Example C16_no_fast_forward_v0_refuted :
 Proof.
   exists [((9,0)%N, 0); ((8,0)%N, 0)], (0, [((9,0), 12); ((9,0), 13); ((8,0), 14)]%N). split; vm_compute; reflexivity.
 Qed.
+
+(* ================================================================ extension (round 6) *)
+
+(* FetchDocsStream makes one Fetch call per source of the request ([calls]: the calls in the order they
+   were made, each failing or opening a stream with arbitrary content). It returns an error if and
+   only if something was asked and EVERY call failed. *)
+Theorem C16_fetch_all_failed_is_error : forall req calls,
+  (fds req calls = FdErr <-> calls <> [] /\ Forall (fun c => snd c = FFail) calls)
+  /\ (calls_valid req calls = true -> (calls <> [] <-> req <> []))
+  /\ (calls_valid req calls = true -> req <> [] -> Forall (fun c => snd c = FFail) calls -> fds req calls = FdErr).
+Proof. exact fetch_all_failed_is_error. Qed.
+Print Assumptions C16_fetch_all_failed_is_error.
+
+(* ... and when at least one call opened a stream (whatever the others did, whatever the streams
+   contain): a document stream with exactly one document per requested ID in request order, each empty
+   or really sent by the ID's own source under that ID; every ID of a source whose call failed comes
+   back EMPTY; and when the live streams are well behaved every other document is exactly what its
+   source sent (the failed calls disturb nothing). *)
+Theorem C16_fetch_some_failed_is_empty_docs : forall req calls,
+  (exists s l, In (s, FStream l) calls) \/ calls = [] ->
+  exists out, fds req calls = FdOk out
+    /\ out = fetch req (live calls)
+    /\ length out = length req
+    /\ docs_sound req (live calls) out = true
+    /\ (NoDup (map fst calls) -> forall i k, nth_error req i = Some k -> In (snd k) (failed calls) ->
+          nth_error out i = Some (k, 0%N))
+    /\ (well_behaved req (live calls) = true -> out = map (expected_doc (live calls)) req).
+Proof. exact fetch_some_failed_is_empty_docs. Qed.
+Print Assumptions C16_fetch_some_failed_is_empty_docs.
+
+(* The decision Model.search_full takes through the list of failing stores is this very decision
+   on the returned page (so C16_api_honest / C16_state_independent speak about the transcribed code). *)
+Theorem C16_fetch_decision_in_search : forall (l : list ids) calls ffail, l <> [] -> calls_valid l calls = true ->
+  (forall s, In s (map fst calls) -> (In s ffail <-> In s (failed calls))) ->
+  forallb (fun k => existsb (Nat.eqb (snd k)) ffail) l = fds_fails calls.
+Proof. exact search_full_decision. Qed.
+Print Assumptions C16_fetch_decision_in_search.
+
+(* Ingestor.Documents: an error exactly when something was asked and every store's Fetch call failed;
+   otherwise the unique-ID view (C16_documents_aligned / _complete) of the stream of the live stores. *)
+Theorem C16_documents_all_failed_is_error : forall groups calls,
+  match documents_full groups calls with
+  | DcErr => calls <> [] /\ Forall (fun c => snd c = FFail) calls
+  | DcOk out => fds_fails calls = false /\ out = documents groups (live calls)
+  end.
+Proof. exact documents_full_spec. Qed.
+Print Assumptions C16_documents_all_failed_is_error.
+
+(* Which buckets exist in the merged histogram, for every sorting function: the map has each key once;
+   a bucket exists iff some answering shard reports it (with any count, 0 included) or — with an
+   interval — the duplicate repair touched it (some ID of that bucket was answered more often than
+   once). Nothing is ever removed: a bucket counted down to 0 by the repair, and a bucket reported
+   with count 0, stay in the map with value 0 (C16_hist_zero_bucket_stays); a repair of a bucket no
+   shard reported creates it with 2^64-1 (C16_hist_repair_wraps). Equivalently the key set is
+   CaseDefs.hist_keys_spec, the list the correspondence run compares the real key set with. *)
+Theorem C16_hist_keys_exact : forall sort, sort_ok sort -> forall qs xs rev itv naggs,
+  let h := x_hist (merge_rest sort qs xs rev itv naggs) in
+  let U := flat_map snd qs in
+  NoDup (map fst h)
+  /\ (forall k, In k (map fst h) <->
+        (exists x, In x xs /\ In k (map fst (x_hist x)))
+        \/ (itv <> 0%N /\ (exists i, In i U /\ bucket_of itv i = k) /\ reps_in_bucket itv U k <> 0%Z))
+  /\ (forall k, In k (map fst h) <-> In k (hist_keys_spec itv U xs)).
+Proof. exact hist_keys_exact. Qed.
+Print Assumptions C16_hist_keys_exact.
+
+(* proxyapi Search / ComplexSearch, whole response, for every sorting function, request (any int64
+   offset and size), store behaviours and fetch calls. A response with documents is only given for a
+   valid request and a deciding tier with verdict VOk flag qs xs, and then:
+   - the documents are exactly the slice [offset, offset+size) of the merged order of the answering
+     shards (MergeQPRs without any limit: the cut is applied AFTER the merge) — as many as there are,
+     none when the offset is beyond the result; the same list satisfies the rank specification page_ok;
+   - the i-th document carries the i-th ID and a payload that is empty or was really sent by the
+     store the ID came from, under that ID (doc_of);
+   - Total is the int64 of the merged total of ALL answering shards — offset and size do not occur in it
+     (C16_total_paging_independent);
+   - partial_response = flag with code PARTIAL_RESPONSE / NO accordingly; complete only without soft errors;
+   - a non-empty page is never answered when every fetch call failed;
+   - the histogram is given exactly when asked and is the merged one.
+   InvalidArgument is only given for an invalid request (size <= 0 where a size is needed, negative
+   size/offset) or a wants-old verdict; the only-error response only for too-many-fractions. *)
+Theorem C16_api_paging_exact : forall sort, sort_ok sort -> forall q p1 p2 hot hotread cold calls,
+  match api_full sort q p1 p2 hot hotread cold calls with
+  | DResp flag code docs total hist =>
+      a_invalid q = false
+      /\ exists qs xs, verdict_of p1 p2 hot hotread cold = VOk flag qs xs
+         /\ map fst docs = map fst (page_of sort q qs)
+         /\ Forall2 (doc_of (live calls)) (page_of sort q qs) docs
+         /\ page_ok (a_rev q) (flat_map snd qs) (Z.to_nat (a_off q)) (Z.to_nat (a_size q)) (map fst docs) = true
+         /\ sources_ok qs (page_of sort q qs) = true
+         /\ total = to_int64 (total_spec (flat_map snd qs) xs)
+         /\ code = (if flag then CPartial else CNo)
+         /\ (flag = false -> errs_spec xs = 0)
+         /\ (page_of sort q qs <> [] -> fds_fails calls = false)
+         /\ hist = match a_hist q with
+                   | Some _ => Some (x_hist (merge_rest sort qs xs (a_rev q) (a_itv q) 0))
+                   | None => None
+                   end
+  | DOnlyError => verdict_of p1 p2 hot hotread cold = VErr ETooManyFrac
+  | DErr GInvalidArgument => a_invalid q = true \/ verdict_of p1 p2 hot hotread cold = VErr EWantsOld
+  | DErr GInternal => True
+  end.
+Proof. exact api_paging. Qed.
+Print Assumptions C16_api_paging_exact.
+
+(* two requests that differ only in offset / size (and explain / with_total): same classification, same
+   partial flag, and the same rest of the merged QPR — Total, histogram, soft errors *)
+Theorem C16_total_paging_independent : forall sort q q' p1 p2 hot hotread cold,
+  a_rev q = a_rev q' -> a_hist q = a_hist q' ->
+  match search sort p1 p2 hot hotread cold (Z.to_nat (a_off q)) (Z.to_nat (a_size q)) (a_rev q) (a_itv q) 0,
+        search sort p1 p2 hot hotread cold (Z.to_nat (a_off q')) (Z.to_nat (a_size q')) (a_rev q') (a_itv q') 0 with
+  | SOk p _ x, SOk p' _ x' => p = p' /\ x = x'
+  | SErr k, SErr k' => k = k'
+  | _, _ => False
+  end.
+Proof. exact total_paging_independent. Qed.
+Print Assumptions C16_total_paging_independent.
+
+(* Aggregations with ANY number of samples, for every random generator of the reservoir (state type,
+   seed, step function — all arbitrary): the scalar view (samples and generator state forgotten) of the
+   real merge, SamplesContainer.Merge with InsertSample's replacement above 8096 samples, IS the model
+   merge the correspondence run executes, applied to the answers with their samples erased. Hence per
+   aggregation and bin: the bin exists iff some answering shard has it; Total, Sum, NotExists (and
+   Min/Max when no shard reports a negative Total) are exactly those of the containers the answering
+   shards hold for it. Only the sample multiset is outside (and non-integer values: float rounding). *)
+Theorem C16_agg_scalar_exact_unbounded : forall R seed next sort qs xs rev itv naggs,
+  let A := map (erase_aggr R) (merge_aggs_r R seed next xs naggs) in
+  A = x_aggs (merge_rest sort qs (map extra_erase xs) rev itv naggs)
+  /\ length A = naggs
+  /\ forall j, j < naggs ->
+       snd (nth j A e0) = zsum (map (fun x => snd (nth j (x_aggs x) e0)) xs)
+       /\ forall b,
+          match bin_parts j b xs with
+          | [] => blookup (fst (nth j A e0)) b = None
+          | ps => exists h, blookup (fst (nth j A e0)) b = Some h /\ sc_scalar_desc ps h
+          end.
+Proof. exact agg_scalar_exact. Qed.
+Print Assumptions C16_agg_scalar_exact_unbounded.
+
+(* ... and up to the bound the real container is exactly Model.sc_merge (samples concatenated, generator
+   untouched); the reservoir never grows beyond 8096 *)
+Theorem C16_reservoir_below_bound : forall R next (h : scr R) x s r v,
+  ((N.of_nat (length (sc_samples (r_sc R h)) + length (sc_samples x)) <= max_samples)%N ->
+     scr_merge R next h x = mkScr R (sc_merge (r_sc R h) x) (r_rng R h))
+  /\ ((N.of_nat (length s) <= max_samples)%N ->
+      (N.of_nat (length (fst (insert_sample R next (s, r) v))) <= max_samples)%N).
+Proof. exact reservoir_below_bound. Qed.
+Print Assumptions C16_reservoir_below_bound.
+
+(* ---------------------------------------------------------------- non-vacuity of the extension *)
+(* both stores refuse the fetch: error; the hypotheses of C16_fetch_all_failed_is_error hold *)
+Example C16_all_failed_example :
+  let req := [((9,0)%N, 0); ((8,0)%N, 1); ((7,0)%N, 0)] in
+  let calls := [(1, FFail); (0, FFail)] in
+  calls_valid req calls = true /\ req <> [] /\ Forall (fun c : src * fcall => snd c = FFail) calls /\ fds req calls = FdErr.
+Proof. repeat split; try (vm_compute; reflexivity); [discriminate | repeat constructor]. Qed.
+
+(* store 0 refuses, store 1 delivers (and an unrequested document first): the IDs of store 0 come back
+   empty, the document of store 1 intact; hypotheses of C16_fetch_some_failed_is_empty_docs witnessed *)
+Example C16_some_failed_example :
+  let req := [((9,0)%N, 0); ((8,0)%N, 1); ((7,0)%N, 0)] in
+  let calls := [(1, FStream [((4,4), 21); ((8,0), 22)]%N); (0, FFail)] in
+  (exists s l, In (s, FStream l) calls) /\ NoDup (map fst calls) /\ well_behaved req (live calls) = true
+  /\ fds req calls = FdOk [(((9,0)%N, 0), 0%N); (((8,0)%N, 1), 22%N); (((7,0)%N, 0), 0%N)].
+Proof.
+  split; [eexists; eexists; left; reflexivity|]. split; [repeat constructor; simpl; intuition discriminate|].
+  split; vm_compute; reflexivity.
+Qed.
+
+(* shard 0 counts one document in bucket 6 and answers ID (7,1); shard 1 answers the same ID: the
+   repair counts bucket 6 down to 0 and the bucket STAYS (value 0); bucket 8, reported with count 0 by
+   shard 1 only, stays as well *)
+Example C16_hist_zero_bucket_stays :
+  exists l x, search isort true true [[(0, BOk [(7,1)]%N (mkX 1 [(6%N, 1%Z)] [] 0))]; [(1, BOk [(7,1)]%N (mkX 1 [(8%N, 0%Z)] [] 0))]]
+                     [] [] 0 3 false 2%N 0 = SOk false l x
+              /\ x_hist x = [(6%N, 0%Z); (8%N, 0%Z)] /\ x_total x = 1%Z.
+Proof. eexists; eexists; split; [vm_compute; reflexivity | split; reflexivity]. Qed.
+
+(* paging through the API model: merged order (9,0) (8,0) (7,1) (3,0); offset 1 size 2 gives (8,0) (7,1)
+   with their documents; offset 7 gives no document; Total is 9 in both; size 0 is refused by Search
+   and allowed by ComplexSearch with a histogram *)
+Example C16_api_paging_example :
+  let hot := [[(0, BOk [(9,0); (7,1); (3,0)]%N (mkX 5 [] [] 0))]; [(1, BOk [(8,0); (7,1)]%N (mkX 5 [] [] 0))]] in
+  let q off size := mkAreq KSearch off size false None false true in
+  api_full isort (q 1 2)%Z true true hot [] [] [(1, FStream [((8,0), 22)]%N); (0, FStream [((7,1), 11)]%N)]
+    = DResp false CNo [((8,0)%N, 22%N); ((7,1)%N, 11%N)] 9 None
+  /\ api_full isort (q 7 2)%Z true true hot [] [] [] = DResp false CNo [] 9 None
+  /\ api_full isort (q 0 0)%Z true true hot [] [] [] = DErr GInvalidArgument
+  /\ api_full isort (mkAreq KComplex 0 0 false (Some 2%N) false true) true true hot [] [] []
+      = DResp false CNo [] 9 (Some [(6%N, 18446744073709551615%Z)])   (* no shard reports a histogram: the repair of (7,1) wraps *)
+  /\ api_full isort (q (-1) 2)%Z true true hot [] [] [] = DErr GInvalidArgument.
+Proof. repeat split; vm_compute; reflexivity. Qed.
+
+(* the reservoir really replaces: a full container (8096 samples) merged with one more sample keeps
+   8096 samples, one of them replaced, while Total/Sum/Min/Max move on; generator: a counter *)
+Example C16_reservoir_example :
+  let next (r : N) := (r, (r + 1)%N) in
+  let h := mkScr N (mkSc 8096 0 0 0 0 (repeat 0%Z (N.to_nat 8096))) 5%N in
+  let m := scr_merge N next h (mkSc 1 7 7 7 0 [7%Z]) in
+  length (sc_samples (r_sc N m)) = N.to_nat 8096 /\ nth 5 (sc_samples (r_sc N m)) 0%Z = 7%Z
+  /\ er N m = mkSc 8097 7 0 7 0 [] /\ r_rng N m = 6%N.
+Proof. repeat split; vm_compute; reflexivity. Qed.
